@@ -26,6 +26,7 @@ type Exec struct {
 	trace       *Trace
 	checkPanics bool
 	nPanicObl   int
+	nGuarded    int
 	nonNil      map[string]bool // reference terms known to be non-zero on every path
 	curFrame    *frame
 	loopSpecs   map[int]*LoopSpec   // plug-in supplied loop contracts of the top function
@@ -477,7 +478,7 @@ func (x *Exec) loopHead(fr *frame, li *loopInfo, b *ssa.BasicBlock, phis []*ssa.
 // write are replaced by unconstrained values; the rest is framed.
 func (x *Exec) havocLoopState(fr *frame, li *loopInfo, cur *State, r string) {
 	S := x.vc.S
-	writesMem, writesMaps, calls := false, false, false
+	writesMem, writesMaps, calls, callWrites := false, false, false, false
 	for b := range li.blocks {
 		for _, ins := range b.Instrs {
 			switch i := ins.(type) {
@@ -486,8 +487,13 @@ func (x *Exec) havocLoopState(fr *frame, li *loopInfo, cur *State, r string) {
 			case *ssa.MapUpdate:
 				writesMaps = true
 			case ssa.CallInstruction:
-				_ = i
-				calls = true
+				if x.callMayWrite(i) {
+					calls = true
+				}
+				if !pureCallee(x, i) {
+					writesMem = true
+					callWrites = true
+				}
 			case *ssa.Alloc, *ssa.MakeSlice, *ssa.MakeInterface, *ssa.MakeClosure, *ssa.Convert, *ssa.MakeMap:
 				writesMem = true
 			}
@@ -513,7 +519,7 @@ func (x *Exec) havocLoopState(fr *frame, li *loopInfo, cur *State, r string) {
 			}
 			keep = and(keep, not(or(mods...)))
 			x.havocMem(cur, keep)
-		} else if !calls && !x.loopStoresOld(fr, li) {
+		} else if !calls && !callWrites && !x.loopStoresOld(fr, li) {
 			// only fresh objects are written
 			x.vc.havocFrame(cur, li.entrySt.Alloc)
 		} else {
@@ -615,6 +621,48 @@ func hasPrefixAny(s string, ps ...string) bool {
 		if strings.HasPrefix(s, p) {
 			return true
 		}
+	}
+	return false
+}
+
+// callMayWrite: false for callees with an exact model or known not to write caller-visible state
+func (x *Exec) callMayWrite(i ssa.CallInstruction) bool {
+	c := i.Common()
+	if _, ok := c.Value.(*ssa.Builtin); ok {
+		return false
+	}
+	name := x.calleeName(c)
+	if _, ok := stdModels[name]; ok {
+		return false
+	}
+	if _, ok := x.over[name]; ok {
+		return false
+	}
+	if x.opaque[name] || isNoEffect(name) || pureFuncs[name] {
+		return false
+	}
+	return true
+}
+
+// pureCallee: the call writes no memory at all (not even through a model)
+func pureCallee(x *Exec, i ssa.CallInstruction) bool {
+	c := i.Common()
+	if b, ok := c.Value.(*ssa.Builtin); ok {
+		switch b.Name() {
+		case "len", "cap", "min", "max", "print", "println", "ssa:wrapnilchk":
+			return true
+		}
+		return false
+	}
+	switch x.calleeName(c) {
+	case "(encoding/binary.bigEndian).Uint16", "(encoding/binary.bigEndian).Uint32", "(encoding/binary.bigEndian).Uint64",
+		"bytes.Equal", "(*bytes.Buffer).Len", "encoding/binary.Size", "(*sync.Mutex).Lock", "(*sync.Mutex).Unlock",
+		"(*sync.RWMutex).Lock", "(*sync.RWMutex).Unlock", "(*sync.RWMutex).RLock", "(*sync.RWMutex).RUnlock",
+		"(*sync/atomic.Uint32).Load", "(*sync/atomic.Int32).Load", "(*sync/atomic.Int64).Load":
+		return true
+	}
+	if _, ok := x.over[x.calleeName(c)]; ok {
+		return true // mode-A abstractions return values only (their ghost effects are not memory)
 	}
 	return false
 }
